@@ -38,6 +38,7 @@ var c09Confs = []struct {
 	{"custom key store without a certificate, encryption certificate validated", world.SPConf{Store: []string{"K1"}, PlainStores: true, EncCertState: "nocert", ValidateEncCert: true}},
 	{"custom key store whose GetKeyPair fails", world.SPConf{Store: []string{"K1"}, PlainStores: true, EncCertState: "keystore-error"}},
 	{"decompression limit configured (1 MiB)", world.SPConf{Store: []string{"K1", "K3"}, MaxSize: 1 << 20}},
+	{"certificate store of a slice type", world.SPConf{Store: []string{"K1", "K3"}, SliceStore: true}},
 }
 
 var c09Entries = []string{"ValidateEncodedResponse", "RetrieveAssertionInfo", "DecodeUnverifiedBaseResponse", "DecodeUnverifiedLogoutResponse", "ValidateEncodedLogoutRequestPOST", "ValidateEncodedLogoutResponsePOST"}
@@ -681,7 +682,7 @@ func c09Run(r *mc.Run) {
 		bits = []uint{0, 1, 2, 3, 4, 5, 6, 7}
 	}
 	r.Level = "fault_enumeration"
-	r.Rule = "(a) 6 base messages x 3 layers (base64 text, DEFLATE stream, XML bytes): every truncation offset, every single-bit flip (quick: bits 0 and 7 of every byte; thorough: all 8), 12 byte substitutions at every position, each fed to the entry points of its kind under 6 configurations (truncations: to all 6 entry points); (b) unsigned Response + EncryptedAssertion: 8 algorithm identifiers x every ciphertext length 0..64 x content families (zeros, 0xff, valid-truncated, every final plaintext byte 0..255, every position x value of the last non-zero byte of the final block, all-zero final block) with deviation-bounded key-transport / digest / key length / placement / recipient variants, through ValidateEncodedResponse and through DecryptBytes/Decrypt directly; every document one attacker edit (C01's operator menu) away from 8 genuine messages; an EncryptedAssertion that decrypts to a rootless plaintext (empty, whitespace, comment, prolog, text, two roots); a valid EncryptedAssertion at 11 placements (direct child, twice, 4 wrappers, nested elements named like the root, inside an assertion, inside another EncryptedAssertion) under signed and unsigned roots, each also delivered three times to one instance of every configuration (incl. a key store whose GetKeyPair fails); direct DecryptSymmetricKey/DecryptBytes calls with odd certificates; (c) structure extremes in a child process (depth, width, attribute count, text size, signature count, namespace prefixes declared on one element (31..2000), declared again on each of n siblings (8..30000) and on each element of a chain (12..5000)). non-trivial = the input passed base64 decoding (reached XML/DEFLATE processing) or reached the decryption routine; distinct = distinct input"
+	r.Rule = "(a) 6 base messages x 3 layers (base64 text, DEFLATE stream, XML bytes): every truncation offset, every single-bit flip (quick: bits 0 and 7 of every byte; thorough: all 8), 12 byte substitutions at every position, each fed to the entry points of its kind under 7 configurations (truncations: to all 6 entry points); (b) unsigned Response + EncryptedAssertion: 8 algorithm identifiers x every ciphertext length 0..64 x content families (zeros, 0xff, valid-truncated, every final plaintext byte 0..255, every position x value of the last non-zero byte of the final block, all-zero final block) with deviation-bounded key-transport / digest / key length / placement / recipient variants, through ValidateEncodedResponse and through DecryptBytes/Decrypt directly; every document one attacker edit (C01's operator menu) away from 8 genuine messages; an EncryptedAssertion that decrypts to a rootless plaintext (empty, whitespace, comment, prolog, text, two roots); a valid EncryptedAssertion at 11 placements (direct child, twice, 4 wrappers, nested elements named like the root, inside an assertion, inside another EncryptedAssertion) under signed and unsigned roots, each also delivered three times to one instance of every configuration (incl. a key store whose GetKeyPair fails); direct DecryptSymmetricKey/DecryptBytes calls with odd certificates; (c) structure extremes in a child process (depth, width, attribute count, text size, signature count, namespace prefixes declared on one element (31..2000), declared again on each of n siblings (8..30000) and on each element of a chain (12..5000)). non-trivial = the input passed base64 decoding (reached XML/DEFLATE processing) or reached the decryption routine; distinct = distinct input"
 	r.Assume("a Go panic in the callee is observable by recover(); fatal runtime errors are observed as death of a child process")
 
 	// (a)
